@@ -1537,8 +1537,13 @@ func (s *scen) setup() bool {
 	if r.Chance(1, 3) {
 		nd++ // a directory that only ConfigureByPath will name
 	}
+	// half of the scenarios: directory names that are prefixes of one another (plots, plots2, plots22, ...)
+	prefixNames := r.Derive("dirnames", 0).Bool()
 	for i := 0; i < nd; i++ {
 		d := filepath.Join(s.root, fmt.Sprintf("d%d", i))
+		if prefixNames {
+			d = filepath.Join(s.root, "plots"+strings.Repeat("2", i))
+		}
 		if err := os.MkdirAll(d, 0o755); err != nil {
 			return false
 		}
@@ -1744,6 +1749,25 @@ func runScenario(run *vh.Run, ci int, rng *vh.Rng) {
 	if !s.setup() {
 		run.Drop("scenario-setup-failed")
 		return
+	}
+	if len(s.dirs) > s.nProof && rng.Derive("outside-dir", 0).Chance(1, 2) {
+		// a directory the configuration file does not list is configured by path, the node restarts with its unchanged
+		// configuration (which does not scan that directory), and the same request comes again: the spaces created the
+		// first time lie there and must be used before new ones are created
+		extra := len(s.dirs) - 1
+		size := uint64(rng.Range(1, 2)) * ps(24)
+		s.opByPath([]int{extra}, []uint64{size}, "keeper", fmt.Sprintf("d%d:%d bytes (directory outside proof_dir)", extra, size))
+		if !s.dropped && !s.budgetHit {
+			s.scanned = map[int]bool{}
+			for i := 0; i < s.nProof; i++ {
+				s.scanned[i] = true
+			}
+			s.lastSel = map[string]int{}
+			if s.opRestart() && !s.dropped {
+				s.opByPath([]int{extra}, []uint64{size}, "keeper", fmt.Sprintf("d%d:%d bytes (same request after the restart)", extra, size))
+				s.run.Count("outside_directory_reconfigured_after_restart", 1)
+			}
+		}
 	}
 	nOps := rng.Range(1, 4)
 	for i := 0; i < nOps && !s.dropped && !s.budgetHit; i++ {
